@@ -20,6 +20,7 @@ import (
 
 	"github.com/hashicorp/nodeenrollment"
 	"github.com/hashicorp/nodeenrollment/registration"
+	"github.com/hashicorp/nodeenrollment/rotation"
 	nodetls "github.com/hashicorp/nodeenrollment/tls"
 	"github.com/hashicorp/nodeenrollment/types"
 	"google.golang.org/protobuf/proto"
@@ -700,6 +701,94 @@ func runSeq(c *engine.Ctx, ac advCase) {
 	}
 }
 
+// runReinit: a registered node connects (so the process has seen the server's CA certificates), the
+// operator re-initialises the roots (e.g. after a compromise) and keeps the node record; the node then
+// presents its old chain. The old roots are no longer roots of this server. A second variant presents a
+// chain issued by another server of the same process whose listener has handled connections before.
+func runReinit(c *engine.Ctx, ac advCase) {
+	r := c.R
+	w := newAdvWorld("normal", world.Inmem, ac.BaseTLS)
+	defer w.close()
+	connect := func(lw *world.LW, n *world.Node, pref string) (*world.ConnRec, bool) {
+		nonce := world.RandBytes(nodeenrollment.NonceSize)
+		req := &types.GenerateServerCertificatesRequest{CertificatePublicKeyPkix: n.K.Pkix, Nonce: nonce, NonceSignature: ed25519.Sign(n.K.Priv, nonce)}
+		b := n.Creds.CertificateBundles[0]
+		protos := world.AuthProtos(req)
+		if pref != "" {
+			protos = append(protos, world.CertPref(pref))
+		}
+		cs := world.ClientSpec{Protos: protos, Chain: [][]byte{b.CertificateDer, b.CaCertificateDer}, Signer: n.K.Priv}
+		rec, res, ok := runClient(c, lw, cs)
+		if !ok {
+			return nil, false
+		}
+		auth := rec.Authenticated()
+		finishConn(rec, res)
+		_ = auth
+		return rec, true
+	}
+	// 1. honest connection under the original roots
+	rec, ok := connect(w.lw, w.A, w.curID)
+	if !ok {
+		return
+	}
+	if !rec.Authenticated() {
+		r.Count("positive_control_REJECTED", 1)
+		return
+	}
+	switch ac.Mut {
+	case "reinitialize":
+		if _, err := rotation.RotateRootCertificates(w.s.Ctx, w.s.Store, w.s.Opts(nodeenrollment.WithReinitializeRoots(true))...); err != nil {
+			r.Broken("reinitialize: " + err.Error())
+			return
+		}
+		for _, pref := range []string{"", w.curID} {
+			rec, ok := connect(w.lw, w.A, pref)
+			if !ok {
+				return
+			}
+			r.Eval(engine.J(ac)+pref, true)
+			if rec.Authenticated() {
+				r.Violation("unauthorized-auth:chain-under-roots-replaced-by-reinitialization", "after the roots were re-initialised the listener still authenticated a certificate issued by the replaced roots (node record kept, key held)", ac)
+			} else {
+				r.Count("replaced_roots_rejected", 1)
+			}
+		}
+	case "other-server":
+		// a second server in the same process; the node's key is registered there as well
+		w2 := newAdvWorld("normal", world.Inmem, ac.BaseTLS)
+		defer w2.close()
+		rec2, ok := connect(w2.lw, w2.A, w2.curID) // w2's own traffic
+		if !ok || !rec2.Authenticated() {
+			return
+		}
+		n := world.MustNode(false, "")
+		n.K, n.Creds.CertificatePublicKeyPkix = w.A.K, w.A.K.Pkix // same certificate key as A on server 1
+		n.Creds.CertificatePrivateKeyPkcs8 = w.A.K.Pkcs8
+		req, err := n.FetchRequest()
+		if err != nil {
+			r.Broken(err.Error())
+			return
+		}
+		if _, err := registration.AuthorizeNode(w2.s.Ctx, w2.s.Store, req, w2.s.Opts()...); err != nil {
+			r.Broken("authorize on second server: " + err.Error())
+			return
+		}
+		for _, pref := range []string{"", w2.curID} {
+			rec, ok := connect(w2.lw, w.A, pref) // A presents the chain issued by server 1
+			if !ok {
+				return
+			}
+			r.Eval(engine.J(ac)+pref, true)
+			if rec.Authenticated() {
+				r.Violation("unauthorized-auth:chain-under-another-servers-roots", "the listener authenticated a certificate issued by the roots of another server in the same process (key registered, key held)", ac)
+			} else {
+				r.Count("other_servers_roots_rejected", 1)
+			}
+		}
+	}
+}
+
 func genSeqs(alphabet string, maxLen int) []string {
 	var out []string
 	var rec func(cur string)
@@ -738,6 +827,8 @@ func runTLSAdv(c *engine.Ctx) engine.Result {
 			return res
 		}
 		switch ac.Kind {
+		case "reinit":
+			runReinit(c, ac)
 		case "seq":
 			runSeq(c, ac)
 		default:
@@ -955,6 +1046,15 @@ func runTLSAdv(c *engine.Ctx) engine.Result {
 		engine.ForEach(len(seqs), workers, func(i int) { runSeq(c, advCase{Kind: "seq", Ops: seqs[i]}) })
 	}
 
+	// ---- roots replaced after the process has seen them -------------------------
+	{
+		var cs []advCase
+		for i := 0; i < c.Pick(6, 40); i++ {
+			cs = append(cs, advCase{Kind: "reinit", Mut: "reinitialize", BaseTLS: i%2 == 1}, advCase{Kind: "reinit", Mut: "other-server", BaseTLS: i%2 == 1})
+		}
+		engine.ForEach(len(cs), workers, func(i int) { runReinit(c, cs[i]) })
+	}
+
 	// ---- clients that do not speak the library protocols -------------------
 	{
 		w := newAdvWorld("normal", world.Inmem)
@@ -982,6 +1082,8 @@ func runTLSAdv(c *engine.Ctx) engine.Result {
 	r.Require("mutations_that_still_decode", 10)
 	r.Require("seq_registered_connects", 10)
 	r.Require("worlds_with_storage_wrapper", 3)
+	r.Require("replaced_roots_rejected", 4)
+	r.Require("other_servers_roots_rejected", 4)
 	r.Require("mixed_prefix_lists:fetch-first", 10)
 	r.Require("mixed_prefix_lists:auth-first", 10)
 	if n := r.Counter("positive_control_REJECTED"); n > 0 {
